@@ -335,7 +335,12 @@ class TGen:
                 if j:
                     parts.append(" | ")
                 parts.append(N(ct, ct, [pool.pop()]))
-            parts += [" => ", self.expr(ty, env, d), ", "]
+            # an arm may diverge (its type is `never`): it must not decide the type of the match, in whatever position
+            if r.random() < 0.2:
+                act = N("call", NEVER, [self.ident("throw", THROW_T), "(", self.expr(STR, env, 0), ")"])
+            else:
+                act = self.expr(ty, env, d)
+            parts += [" => ", act, ", "]
         parts += ["_ => ", self.expr(ty, env, d), " }"]
         return N("match", ty, parts)
 
@@ -664,12 +669,16 @@ def tree_mutations(rng, tree):
             parts[kids[2][0]] = raw("{ " + wrong_lit(rng, n.ty) + " }")
             out.append(("branchMismatch", path, N("raw", None, parts)))
             out.append(("branchMismatch", path, N("raw", None, parts[:kids[2][0] - 1])))      # else branch removed
-        if n.kind == "match" and n.ty in WRONG and len(kids) > 2:
+        # the actions of the literal arms of a match (the parts that follow " => ", without the default arm's): when all of
+        # them diverge the default arm alone decides the type, and neither a wrong default nor a missing one is an error
+        acts = [n.parts[i + 1] for i, q in enumerate(n.parts[:-1]) if q == " => " and isinstance(n.parts[i + 1], N)][:-1] if n.kind == "match" else []
+        if n.kind == "match" and n.ty in WRONG and len(kids) > 2 and any(a.ty != NEVER for a in acts):
             parts = list(n.parts)
             parts[kids[-1][0]] = raw(wrong_lit(rng, n.ty))
             out.append(("branchMismatch", path, N("raw", None, parts)))
             if True:
-                # drop the default arm of a value-producing match
+                # drop the default arm of a value-producing match (if every remaining arm diverged, the match would
+                # legally be a null-typed statement-like match)
                 cut = kids[-1][0] - 1
                 out.append(("missingDefault", path, N("raw", None, parts[:cut] + [" }"])))
                 lit_kid = kids[1]
